@@ -1,6 +1,7 @@
 (* C12 — statements only.  Finite bound 2j <= 8 is the property's own quantifier. *)
 From Coq Require Import Reals List ZArith QArith Bool.
-From TFV Require Import Base.RBase Rot.Wigner Rot.Wigner_unit Rot.Wigner_proofs Rot.CG Rot.CG_proofs.
+From Coquelicot Require Import Complex.
+From TFV Require Import Base.RBase Rot.Wigner Rot.Wigner_unit Rot.Wigner_proofs Rot.DHom_ids Rot.DHom Rot.CG Rot.CG_proofs.
 Import ListNotations.
 Open Scope R_scope.
 
@@ -23,6 +24,45 @@ Theorem C12_d_unitary_angle : forall j2 m2 k2 beta,
   fold_right (fun n2 acc => dsmall j2 m2 n2 beta * dsmall j2 k2 n2 beta + acc) 0 (m_range j2) = delta m2 k2.
 Proof. exact d_rows_orthonormal_angle. Qed.
 Print Assumptions C12_d_unitary_angle.
+
+(* ---- group law D(R1) D(R2) = D(R1 R2), every 2j <= 8 ---- *)
+(* for ANY complex 2x2 matrices U, V (no unitarity needed): the spin-j matrices multiply like the matrices *)
+Theorem C12_D_group_law : forall j2 m2 n2 (U V : M2),
+  (0 <= j2 <= 8)%Z -> In m2 (m_range j2) -> In n2 (m_range j2) ->
+  DmatM j2 m2 n2 (mmul U V) = csum (fun k2 => (DmatM j2 m2 k2 U * DmatM j2 k2 n2 V)%C) (m_range j2).
+Proof. exact D_group_law. Qed.
+Print Assumptions C12_D_group_law.
+
+(* the model's conjugated D matrix (= the code's D_matrix_conj) IS that representation at the conjugated
+   Euler rotation Rz(alpha) Ry(beta) Rz(gamma) *)
+Theorem C12_Dconj_is_representation : forall j2 m2 n2 al be ga,
+  (0 <= j2 <= 8)%Z -> In m2 (m_range j2) -> In n2 (m_range j2) ->
+  Dconj j2 m2 n2 al be ga = DmatM j2 m2 n2 (mconj (Euler al be ga)).
+Proof. exact Dconj_is_Dmat. Qed.
+Print Assumptions C12_Dconj_is_representation.
+
+(* hence: whenever the SU(2) product of two Euler rotations is the Euler rotation (a3,b3,g3), the D* matrices multiply *)
+Theorem C12_Dconj_group_law : forall j2 m2 n2 a1 b1 g1 a2 b2 g2 a3 b3 g3,
+  (0 <= j2 <= 8)%Z -> In m2 (m_range j2) -> In n2 (m_range j2) ->
+  mmul (Euler a1 b1 g1) (Euler a2 b2 g2) = Euler a3 b3 g3 ->
+  csum (fun k2 => (Dconj j2 m2 k2 a1 b1 g1 * Dconj j2 k2 n2 a2 b2 g2)%C) (m_range j2) = Dconj j2 m2 n2 a3 b3 g3.
+Proof. exact Dconj_group_law. Qed.
+Print Assumptions C12_Dconj_group_law.
+
+(* addition law of the small-d matrices *)
+Theorem C12_dsmall_add : forall j2 m2 n2 b1 b2,
+  (0 <= j2 <= 8)%Z -> In m2 (m_range j2) -> In n2 (m_range j2) ->
+  fold_right (fun k2 acc => dsmall j2 m2 k2 b1 * dsmall j2 k2 n2 b2 + acc) 0 (m_range j2) = dsmall j2 m2 n2 (b1 + b2).
+Proof. exact dsmall_add. Qed.
+Print Assumptions C12_dsmall_add.
+
+(* spin 1/2: the representation of a matrix is the matrix itself (Euler angles that reproduce the
+   spin-1/2 matrix reproduce the SU(2) element) *)
+Theorem C12_spin_half_is_identity_rep : forall a b c d : C,
+  DmatM 1 1 1 (a, b, c, d) = a /\ DmatM 1 1 (-1) (a, b, c, d) = b /\
+  DmatM 1 (-1) 1 (a, b, c, d) = c /\ DmatM 1 (-1) (-1) (a, b, c, d) = d.
+Proof. exact Dmat_half. Qed.
+Print Assumptions C12_spin_half_is_identity_rep.
 
 (* Clebsch-Gordan (Racah closed form, exact radicals): normalisation and the two sign symmetries
    used by the table lookup, all j <= 4 *)
